@@ -5,7 +5,7 @@ from lib import Check, s_str
 from translate import t1_regex
 
 PID = 'C07'
-CONE = ['Regex.v', 'RegexFacts.v', 'RegexCost.v', 'RunFacts.v', 'DetCost.v', 'gen/RegexGen.v']
+CONE = ['Regex.v', 'RegexFacts.v', 'RegexCost.v', 'RunFacts.v', 'DetCost.v', 'RegexSem.v', 'gen/RegexGen.v']
 BASE_CHARS = ['\\', '"', "'", ' ', '\r', '\n', '\f', '\t', '/', '*', 'a', 'f', '0', '9', '-', ',', '(', ')', 'n', '|', ']', '=', ':', 'z', '.', '+',
               '\xe9', '\u0434', '\u65e5', '\u0663', '_', '\x80', '\U0001F600']      # non-ASCII letters / digits / symbols, underscore
 PREFIXES = ['', '[a="', "[a='", ':lang(', ':lang("', ':nth-child(', ':nth-child(2n', '/*', '"', "'", '[a', '[a=', ':x(', '\\', ':-soup-contains(',
